@@ -47,6 +47,7 @@ func NewSimEnv(cfg SimConfig) (*SimEnv, error) { return NewSimEnvW(cfg, 0) }
 // NewSimEnvW: as NewSimEnv with an explicit outbound-buffer static cap (WriteBufferCap; 0 = the proxy's default)
 func NewSimEnvW(cfg SimConfig, writeBufferCap int) (*SimEnv, error) {
 	server.VerifResetAuthCmd()
+	server.VerifResetScratch() // package-level scratch slices as in a fresh process
 	h := server.NewListenServer(server.WithRedisPassword(cfg.Passwd), server.WithDisableRedisSlave(cfg.DisableSlave), server.WithServerRetryTimeout(1000))
 	h.OnBoot(core.Engine{})
 	env, err := core.VerifNewEnv(core.VerifOptions{MsgMaxLength: cfg.Limit, RequestTimeoutMs: cfg.TimeoutMs, ServerConnections: cfg.Conns, Passwd: cfg.Passwd, WriteBufferCap: writeBufferCap}, h)
